@@ -21,7 +21,9 @@ def legal : TState → TState → Bool
 /-- what may happen to one trial between two observations -/
 def trialStepOK (t t' : Trial) : Bool :=
   legal t.state t'.state && t'.params == t.params &&
-  (!t.state.completed || t' == { t with md := t'.md })
+  (!t.state.completed || t' == { t with md := t'.md }) &&
+  -- a trial is handed to a worker only when it leaves REQUESTED; afterwards its worker never changes
+  (t.state == .requested || t'.client == t.client)
 
 /-- every trial present before and after (same id) evolved legally -/
 def trialsStepOK (ts ts' : List Trial) : Bool :=
